@@ -8,6 +8,7 @@ import (
 	"fmt"
 	"go/constant"
 	"go/token"
+	"go/types"
 	"regexp"
 	"strings"
 
@@ -123,9 +124,96 @@ func tableElem(p *Program, path string) (g *ssa.Global, field string, ok bool) {
 	return gv, m[2], true
 }
 
+// staticMap: a package-level map with constant keys and values, filled in the package initialiser only (a map
+// literal) and never written afterwards: its entries, keyed by the key's constant text ("c:<n>").
+func staticMap(p *Program, g *ssa.Global) (map[string]*ssa.Const, bool) {
+	init := p.Main.Func("init")
+	if g.Pkg != p.Main || init == nil {
+		return nil, false
+	}
+	if _, isMap := deref(g.Type()).Underlying().(*types.Map); !isMap {
+		return nil, false
+	}
+	var mk ssa.Value
+	for _, b := range init.Blocks {
+		for _, in := range b.Instrs {
+			if st, ok := in.(*ssa.Store); ok && st.Addr == ssa.Value(g) {
+				if mk != nil {
+					return nil, false
+				}
+				mk = st.Val
+			}
+		}
+	}
+	if _, ok := mk.(*ssa.MakeMap); !ok {
+		return nil, false
+	}
+	out := map[string]*ssa.Const{}
+	refs := mk.Referrers()
+	if refs == nil {
+		return nil, false
+	}
+	for _, r := range *refs {
+		switch x := r.(type) {
+		case *ssa.MapUpdate:
+			k, ok1 := x.Key.(*ssa.Const)
+			v, ok2 := x.Value.(*ssa.Const)
+			if !ok1 || !ok2 {
+				return nil, false
+			}
+			out[constStr(k)] = v
+		case *ssa.Store, *ssa.DebugRef:
+		default:
+			return nil, false
+		}
+	}
+	// immutability: outside the initialiser the global is only loaded, and the loaded map only looked up / ranged / len'd
+	for f := range p.All {
+		if !p.inModule(f) || f == init || isCtl(f) {
+			continue
+		}
+		for _, b := range f.Blocks {
+			for _, in := range b.Instrs {
+				for _, op := range in.Operands(nil) {
+					if op == nil || *op != ssa.Value(g) {
+						continue
+					}
+					ld, ok := in.(*ssa.UnOp)
+					if !ok {
+						if _, dbg := in.(*ssa.DebugRef); dbg {
+							continue
+						}
+						return nil, false
+					}
+					if lr := ld.Referrers(); lr != nil {
+						for _, u := range *lr {
+							switch y := u.(type) {
+							case *ssa.Lookup, *ssa.Range, *ssa.DebugRef:
+							case *ssa.Call:
+								if bi, ok := y.Call.Value.(*ssa.Builtin); !ok || bi.Name() != "len" {
+									return nil, false
+								}
+							default:
+								return nil, false
+							}
+						}
+					}
+				}
+			}
+		}
+	}
+	return out, len(out) > 0
+}
+
 // tableGuard finds, in cond, the test "input & row.<flagField> != 0" (any) or "input & row.f == row.f" (all) for table g
 // and returns the input subject and flag field.
 func tableGuard(p *Program, cond DNF, g *ssa.Global) (subj, flagField string, ok bool) {
+	subj, flagField, _, ok = tableGuard2(p, cond, g)
+	return
+}
+
+// tableGuard2 also reports whether the test demands all of the row's bits (== row.f) or any of them (!= 0).
+func tableGuard2(p *Program, cond DNF, g *ssa.Global) (subj, flagField string, all, ok bool) {
 	for _, c := range cond {
 		for _, l := range c {
 			if l.A.Kind != AkCmp || l.A.Op != "==" {
@@ -149,15 +237,15 @@ func tableGuard(p *Program, cond DNF, g *ssa.Global) (subj, flagField string, ok
 					continue
 				}
 				if l.Neg && k == "c:0" { // (in & row.f) != 0
-					return parts[1-i], f, true
+					return parts[1-i], f, false, true
 				}
 				if !l.Neg && k == parts[i] { // (in & row.f) == row.f
-					return parts[1-i], f, true
+					return parts[1-i], f, true, true
 				}
 			}
 		}
 	}
-	return "", "", false
+	return "", "", false, false
 }
 
 // expandTableRows: rows of `acc |= row.value` guarded by a test of the input against row.flag, for a constant table.
@@ -171,7 +259,7 @@ func expandTableRows(a *An, ctx *Ctx, b *ssa.BinOp, local DNF, pos string, in ss
 			continue
 		}
 		tab, okT := staticTable(a.P, g)
-		subj, ff, okG := tableGuard(a.P, local, g)
+		subj, ff, allForm, okG := tableGuard2(a.P, local, g)
 		if !okT || !okG {
 			continue
 		}
@@ -183,10 +271,13 @@ func expandTableRows(a *An, ctx *Ctx, b *ssa.BinOp, local DNF, pos string, in ss
 				return nil, true, fmt.Errorf("table %s has a non-integer row", g.Name())
 			}
 			at := &Atom{Subj: subj, Bits: fv}
-			if popcount(fv) == 1 {
+			switch {
+			case popcount(fv) == 1:
 				at.Kind = AkBit
-			} else {
+			case allForm:
 				at.Kind = AkAll
+			default:
+				at.Kind = AkAny
 			}
 			rows = append(rows, Row{K: kv, Kind: "or", Cond: DNF{Conj{at.ID(): Lit{A: at}}}, Pos: pos + " (table " + g.Name() + ")", In: in})
 		}
